@@ -52,7 +52,11 @@ class DIB(ABC):
         """Determine dib type out of dib type code."""
         if len(raw) < 2:
             raise CouldNotParseKNXIP("could not parse DIB header")
-        dtc = DIBTypeCode(raw[1])
+        try:
+            dtc = DIBTypeCode(raw[1])
+        except ValueError:
+            # unknown description type codes are kept as generic DIBs
+            return DIBGeneric()
 
         if dtc == DIBTypeCode.DEVICE_INFO:
             return DIBDeviceInformation()
@@ -90,7 +94,7 @@ class DIBGeneric(DIB):
             raise CouldNotParseKNXIP("could not parse DIB header")
 
         dib_length = raw[0]
-        if len(raw) < dib_length:
+        if len(raw) < dib_length or dib_length < DIB_HEADER_LENGTH:
             raise CouldNotParseKNXIP("DIB wrong length")
         try:
             self.dtc = DIBTypeCode(raw[1])
@@ -146,10 +150,13 @@ class DIBDeviceInformation(DIB):
             raise CouldNotParseKNXIP("wrong connection header length")
         if raw[0] != DIBDeviceInformation.LENGTH:
             raise CouldNotParseKNXIP("wrong connection header length")
-        if DIBTypeCode(raw[1]) != DIBTypeCode.DEVICE_INFO:
+        if raw[1] != DIBTypeCode.DEVICE_INFO.value:
             raise CouldNotParseKNXIP("DIB is no device info")
 
-        self.knx_medium = KNXMedium(raw[2])
+        try:
+            self.knx_medium = KNXMedium(raw[2])
+        except ValueError as err:
+            raise CouldNotParseKNXIP("DIB has unsupported KNX medium") from err
         # last bit of device_status. All other bits are unused
         self.programming_mode = bool(raw[3])
         self.individual_address = IndividualAddress.from_knx(raw[4:6])
@@ -267,15 +274,18 @@ class _DIBServiceFamilies(DIB):
         if len(raw) < 2:
             raise CouldNotParseKNXIP("DIB header too small")
         length = raw[0]
-        if (len(raw) < length) or (length % 2):
+        if (len(raw) < length) or (length % 2) or length < DIB_HEADER_LENGTH:
             raise CouldNotParseKNXIP("DIB wrong size")
-        if DIBTypeCode(raw[1]) != self.type_code:
+        if raw[1] != self.type_code.value:
             raise CouldNotParseKNXIP(
                 f"DIB has wrong type code for {self.__class__.__name__}"
             )
 
         for pos in range(2, length, 2):
-            name = DIBServiceFamily(raw[pos])
+            try:
+                name = DIBServiceFamily(raw[pos])
+            except ValueError as err:
+                raise CouldNotParseKNXIP("DIB has unsupported service family") from err
             version = raw[pos + 1]
             self.families.append(DIBSuppSVCFamilies.Family(name, version))
         return length
@@ -348,9 +358,9 @@ class DIBTunnelingInfo(DIB):
         if len(raw) < 4:
             raise CouldNotParseKNXIP("DIB header too small")
         length = raw[0]
-        if (len(raw) < length) or (length % 4):
+        if (len(raw) < length) or (length % 4) or length < 4:
             raise CouldNotParseKNXIP("DIB wrong size")
-        if DIBTypeCode(raw[1]) != DIBTypeCode.TUNNELING_INFO:
+        if raw[1] != DIBTypeCode.TUNNELING_INFO.value:
             raise CouldNotParseKNXIP(
                 f"DIB has wrong type code for {self.__class__.__name__}"
             )
